@@ -520,13 +520,25 @@ class AppClock(Clock, metaclass=MetaAppClock):
 class ClockScheduler():
     def __init__(self):
         self.queue = tsq.TaskQueue()
+        self._pending = dict()
 
     def run(self):
         while not self.queue.empty():
             time, clock_task = self.queue.pop()
+            key = (clock_task.clock, clock_task.task)
+            if self._pending.get(key) is clock_task:
+                del self._pending[key]
             clock_task._wakeup(time)
 
     def add(self, time, clock_task):
+        # As in the rt clocks' queues, scheduling again a task that is
+        # still pending in the same clock moves it instead of adding a
+        # second wake up (e.g. a routine paused and resumed before its time).
+        key = (clock_task.clock, clock_task.task)
+        prev = self._pending.get(key)
+        if prev is not None and prev is not clock_task:
+            self.queue.remove(prev)
+        self._pending[key] = clock_task
         self.queue.add(time, clock_task)
 
     def retime(self, clock):
@@ -538,6 +550,7 @@ class ClockScheduler():
 
     def reset(self):
         self.queue.clear()
+        self._pending.clear()
 
 
 class ClockTask():
